@@ -27,4 +27,57 @@ def check(run, tier):
         "weights": {"Attr": 4, "Locate": 3, "Register": 3, "Create": 2, "Get": 2, "DeriveKey": 2}})
     E.judge(run, traces, only=ONLY, name="c13")
     E.summarise(run, traces)
-    run.assumptions.append("parameter menus of the cryptographic operations (algorithm x mode x padding x IV x lengths) are swept by C06")
+    crypto_grid(run, quick)
+
+
+
+class _Relabel(object):
+    """The cryptographic parameter grid of C06 run for C13: only its internal-error verdicts count here."""
+
+    def __init__(self, run):
+        self.run = run
+        self.extra = {}
+        self.traces = 0
+
+    def case(self, key=None, n=1):
+        self.run.case(("crypto",) + tuple(key) if isinstance(key, tuple) else key, n)
+
+    def note_drift(self, what):
+        pass
+
+    def sample(self, *a, **k):
+        pass
+
+    def violation(self, clause, sig, replay):
+        if clause == "C06_internal_error":
+            return self.run.violation("C13_crypto_item", dict(sig, op=sig.get("k")), replay)
+        return False
+
+
+def crypto_grid(run, quick):
+    """Cryptographic operations x parameter menus (CryptoTerms.tla rows): no cell may end in General Failure."""
+    import multiprocessing
+    from .. import tlc
+    from . import c06
+    cfg = tlc.write_cfg("CryptoTerms13.cfg", "SPECIFICATION Spec\nINVARIANT Emit\nCHECK_DEADLOCK FALSE\n")
+    res = tlc.run("CryptoTerms", cfg, workers=1)
+    rows = res.tag("ROW")
+    run.add_tlc(res, "CryptoTerms: parameter menu of the cryptographic operations")
+    enc = [r for r in rows if r["k"] == "enc"]
+    n = common.NCPU
+    with multiprocessing.Pool(n) as pool:
+        outs = pool.map(c06._enc_rows, [(enc[i::n], common.SEED * 19 + i, 1 if quick else 3) for i in range(n)])
+    k = 0
+    for out in outs:
+        for o in out:
+            k += 1
+            p = o["row"]["p"]
+            run.case(("crypto-enc", p["alg"], p["mode"], p["pad"], p["iv"], o["status"], o["reason"]))
+            if "C06_internal_error" in o["bad"]:
+                run.violation("C13_crypto_item", {"op": "enc", "alg": p["alg"], "mode": p["mode"], "pad": p["pad"], "iv": p["iv"]},
+                              {"row": o["row"], "status": o["status"], "reason": o["reason"]})
+    rl = _Relabel(run)
+    c06.other_rows(rl, [r for r in rows if r["k"] != "enc"], quick)
+    c06.signatures(rl, quick)
+    run.traces += k + rl.traces
+    run.extra["crypto_grid_cells"] = k + rl.traces
